@@ -31,7 +31,8 @@ def classify(rec):
     p = rec["params"]
     if rec.get("forced"):
         return KEY_GRACE
-    if p["mode"] in ("uphttp", "uphttps") and p.get("reply_variant", 0) in (5, 6):
+    if p["mode"] in ("uphttp", "uphttps") and p.get("reply_variant", 0) in (5, 6) and \
+            (rec.get("overread_by_reply_reader") or rec.get("timeout") or not rec.get("reply")):
         return KEY_2XX_BODY
     why = []
     for d, name in ((0, "client-to-target"), (1, "target-to-client")):
@@ -51,6 +52,23 @@ def classify(rec):
     if p["gated"] and not (rec["closed_up"] and rec["closed_down"]):
         why.append("socket-not-closed")
     return "tunnel-%s-%s" % (p["mode"], "+".join(why) or "oracle")
+
+
+def refusal(ctx, shard, kind, i):
+    """Index of the first label of case i of the shard that the LTS refuses (None: the trace is accepted and
+    only the final state disagrees with the endpoints)."""
+    fn = "crefusal" if kind == "ccases" else "arefusal"
+    src = open(os.path.join(ctx.work, shard)).read()
+    src = src[:src.index("Definition M :=")]
+    name = "diag_%s" % shard
+    open(os.path.join(ctx.work, name), "w").write(
+        src + "Definition R := Eval vm_compute in (match nth_error cases %d with Some c => %s c | None => None end). Print R.\n"
+        % (i, fn))
+    rc, log = ctx.coqc(GROUP, name, cwd=ctx.work, timeout=300)
+    m = re.search(r"R = (Some (\d+)|None)", " ".join(log.split()))
+    if not m:
+        return "diagnostic failed"
+    return int(m.group(2)) if m.group(2) else None
 
 
 def size_of(rec):
@@ -128,7 +146,9 @@ def run(ctx):
                 kind, base, _n = meta["shard_index"][shard]
                 for ident, acc in (("M", model_bad), ("P", prop_bad)):
                     for i in (ctx.parse_nlist(r.get(ident)) or []):
-                        acc.append(recs[kind][base + i])
+                        rec = recs[kind][base + i]
+                        rec["_loc"] = (shard, kind, i)
+                        acc.append(rec)
 
     # ---- decide (DESIGN.md 2.2)
     by_key = {}
@@ -136,7 +156,7 @@ def run(ctx):
         by_key.setdefault(classify(rec), []).append(rec)
     for key, lst in sorted(by_key.items()):
         rec = min(lst, key=size_of)
-        ctx.violation(key, {"params": rec["params"], "observed": {k: rec[k] for k in rec if k != "params"}}, True,
+        ctx.violation(key, {"params": rec["params"], "observed": {k: rec[k] for k in rec if k not in ("params", "_loc")}}, True,
                       "%d scenario(s) where what the endpoints observed fails the C03 predicate; smallest: mode=%s len=%s dirs=%s"
                       % (len(lst), rec["params"]["mode"], rec["params"]["len"],
                          json.dumps([{k: d[k] for k in ("sent_len", "recv_len", "first_diff", "shut", "eof", "eof_early")}
@@ -145,9 +165,12 @@ def run(ctx):
     only_model = [r for r in model_bad if id(r) not in pb_ids]
     if only_model:
         rec = min(only_model, key=size_of)
+        shard, kind, i = rec["_loc"]
+        if kind != "ncases":
+            rec["lts_refused_label_index"] = refusal(ctx, shard, kind, i)
         ctx.violation("trace-not-accepted-by-lts-%s" % rec["params"]["mode"],
                       {"params": rec["params"], "unchecked": "correspondence: event trace of the real proxy is not a run of the LTS (coq/g03/Tunnel.v) or its final state disagrees with the endpoints",
-                       "observed": {k: rec[k] for k in rec if k != "params"}}, False,
+                       "observed": {k: rec[k] for k in rec if k not in ("params", "_loc")}}, False,
                       "%d gated scenario(s) whose recorded trace the model does not accept although the endpoint-level predicate holds; smallest: %s"
                       % (len(only_model), json.dumps(rec["params"])[:300]))
     if meta:
@@ -161,10 +184,14 @@ def run(ctx):
                              % (tb, meta.get("copy_buf_len_observed"), meta.get("max_read_observed")))
         if meta.get("trace_problems"):
             ctx.notes.append({"trace_construction_problems": meta.get("trace_problem_list")})
-    if ob_failed and not ctx.violations and not ctx.known_hits:
+    # a broken obligation / theorem / translator is reported whenever no failing input explains it
+    # (a known finding that is seen anyway does not explain it)
+    if ob_failed and not ctx.violations:
         ctx.violation("obligation-unchecked", dict(unchecked=ob_failed), False, ob_failed[0][:300])
     elif ob_failed:
         ctx.notes.append({"unchecked_obligations": ob_failed})
+    if meta.get("skipped_after_many_timeouts"):
+        ctx.notes.append({"scenarios_not_run_after_many_timeouts": meta["skipped_after_many_timeouts"]})
 
     n_gated = int(meta.get("gated_concrete", 0)) + int(meta.get("gated_abstract", 0))
     coverage = {
@@ -203,7 +230,7 @@ def run(ctx):
         "fd_before_after": [meta.get("fd_before"), meta.get("fd_after")],
         "grace_batch": {"scenarios": meta.get("grace_batch"), "grace_ns": meta.get("short_grace_ns")},
         "slowest_scenario_ms": meta.get("slowest_scenario_ms"),
-        "samples": meta.get("samples"),
+        "samples": (meta.get("samples") or []) + [{"lts_trace_of_a_gated_scenario": meta.get("sample_trace")}],
     }
     ctx.finish("proof", coverage, [
         "the theorems are about the LTS of coq/g03/Tunnel.v; it is tied to the code by gen/tables g03 (buffer size, grace "
